@@ -41,6 +41,19 @@ func skipType(t reflect.Type) bool {
 	return false
 }
 
+// identity numbers skipped objects (engines, environments) in the order they are first seen in this
+// process, so that a template re-bound to another engine hashes differently
+var identities = map[unsafe.Pointer]int{}
+
+func identity(p unsafe.Pointer) int {
+	id, ok := identities[p]
+	if !ok {
+		id = len(identities) + 1
+		identities[p] = id
+	}
+	return id
+}
+
 type hasher struct {
 	h    interface{ Write([]byte) (int, error) }
 	seen map[unsafe.Pointer]int
@@ -59,6 +72,11 @@ func (hs *hasher) walk(v reflect.Value, depth int) {
 		return
 	}
 	if skipType(v.Type()) {
+		// not walked, but WHICH engine / environment a template is bound to is part of its state
+		if v.Kind() == reflect.Ptr && !v.IsNil() {
+			hs.str(fmt.Sprintf("<skip #%d>", identity(unsafe.Pointer(v.Pointer()))))
+			return
+		}
 		hs.str("<skip>")
 		return
 	}
